@@ -1029,3 +1029,126 @@ def c17_side(facts):
 PROPS['C17'] = dict(streams=[SERDE_STREAM], side_obligations=c17_side, facts_view=lambda f: f.get('serde'),
                     assumptions=['serde\'s own Serialize/Deserialize impls for the payload family (u32, String, tuples, Vec, unit) are modelled in Serde.v as the call sequences they make; validated call-for-call by the stream',
                                  'equality of the deserialised value with the payload\'s own result is observed on the implementation (PartialEq of the payload), not modelled'] + MECH_ASSUME[:1])
+
+
+# ============================================================================
+# probes stream (C13): rustc verdicts on generated client programs vs the model's verdicts
+# ============================================================================
+import probes as probes_mod
+def model_verdicts(auto, names):
+    """evaluate handle_has / bounded inside Coq on the extracted tables"""
+    def b(x): return 'true' if x else 'false'
+    exprs = []; specs = []
+    for p in auto:
+        tr = 'TrSend' if p['trait'] == 'Send' else 'TrSync'
+        pl = ['cls3 %s %s %s' % (b(s), b(y), b(z)) for s, y, z in p['payloads']]
+        if p['head'] == 'ArcBorrow*2':
+            exprs.append('(handle_has Extracted.auto_impls "ArcBorrow" %s [%s] && handle_has Extracted.auto_impls "ArcBorrow" %s [%s])' % (tr, pl[0], tr, pl[1]))
+            specs.append('(spec_has "ArcBorrow" %s [%s] && spec_has "ArcBorrow" %s [%s])' % (tr, pl[0], tr, pl[1]))
+        else:
+            exprs.append('handle_has Extracted.auto_impls "%s" %s [%s]' % (p['head'], tr, '; '.join(pl)))
+            specs.append('spec_has "%s" %s [%s]' % (p['head'], tr, '; '.join(pl)))
+    body = ('From Coq Require Import NArith List Bool String. Import ListNotations. Open Scope string_scope.\n'
+            'From TV Require Import Layout SrcFacts Bits Conc Guard Cmp Serde Traits Extracted.\n'
+            'Eval vm_compute in (map (fun b : bool => if b then 1%%N else 0%%N) [%s]).\n'
+            'Eval vm_compute in (map (fun x => (fst x, bounded (snd x))) Extracted.borrow_sigs).\n'
+            'Eval vm_compute in (map (fun b : bool => if b then 1%%N else 0%%N) [%s]).\n' % (';\n '.join(exprs), ';\n '.join(specs)))
+    rc, out = vlib.coq_eval(body, 'traits', timeout=600)
+    if rc != 0: return None, None, out
+    txt = ' '.join(out.split())
+    import re
+    parts = re.split(r'(?:^|\s)=\s(?=\[)', txt)
+    if len(parts) < 4: return None, None, out
+    av = [int(x) for x in re.findall(r'\b([01])(?:%N)?\s*[;\]]', parts[1])]
+    sv = [int(x) for x in re.findall(r'\b([01])(?:%N)?\s*[;\]]', parts[3])]
+    if len(sv) != len(auto): return None, None, 'cannot parse %d spec verdicts (got %d)' % (len(auto), len(sv))
+    av = list(zip(av, sv))
+    bv = dict((n, v == 'true') for n, v in re.findall(r'\(\s*"([^"]*)"(?:%string)?\s*,\s*(true|false)\s*\)', parts[2]))
+    if len(av) != len(auto): return None, None, 'cannot parse %d verdicts (got %d): %s' % (len(auto), len(av), parts[1][:300])
+    return av, bv, ''
+
+def custom_probes(tier, rng, facts):
+    cov = dict(probes=0, auto_trait=0, escapes=0, controls=0, accepted=0, rejected=0, accessors_probed=0, accessors_without_probe=[]); problems = []; nontrivial = set(); samples = []
+    auto = probes_mod.auto_probes(tier); life = probes_mod.lifetime_probes()
+    av, bv, err = model_verdicts(auto, None)
+    if av is None:
+        problems.append(('model', 'the model cannot be evaluated on the extracted impl table / signatures: %s' % err[-800:], dict(kind='unproved', stage='coq-eval', output=err[-3000:])))
+        return dict(coverage=cov, evaluations=0, nontrivial=nontrivial, problems=problems, samples=samples)
+    root = os.path.join(vlib.CACHE, 'probes')
+    ok, res, rerr = probes_mod.run_probes(auto + life, root, vlib.REPO, os.path.join(vlib.TARGET, 'probes'), vlib.ENV, lockfile=os.path.join(vlib.HARNESS, 'Cargo.lock'))
+    if not ok:
+        problems.append(('build', 'probe build failed: %s' % rerr, dict(kind='unproved', stage='probe-build', output=rerr)))
+        return dict(coverage=cov, evaluations=0, nontrivial=nontrivial, problems=problems, samples=samples)
+    def src_of(p): return p['src'][len(probes_mod.PRELUDE):].strip()
+    for p, (mwant, want) in zip(auto, av):
+        cov['probes'] += 1; cov['auto_trait'] += 1
+        r = res.get(p['name'])
+        if r is None:
+            problems.append(('missing', 'no rustc verdict for probe %s' % p['desc'], dict(kind='unproved', stage='probes', probe=p['desc']))); continue
+        acc, codes, msg = r
+        cov['accepted' if acc else 'rejected'] += 1
+        nontrivial.add(p['desc'])
+        if len(samples) < 3: samples.append(dict(stream='probes', probe=p['desc'], program=src_of(p), rustc='accepted' if acc else 'rejected %s' % codes, model='has the trait' if want else 'does not have the trait'))
+        if acc and not want:
+            why = 'rustc accepts `%s` although soundness forbids it: safe code can %s a handle whose payload lacks the required auto traits' % (p['desc'], 'send' if p['trait'] == 'Send' else 'share')
+            problems.append(('oracle', why, dict(kind='impl-counterexample', stream='probes', probe=p['desc'], program=p['src'], rustc='accepted', expected='rejected (E0277)', why=why)))
+        elif not acc and want:
+            if any(c != 'E0277' for c in codes):
+                problems.append(('probe', 'probe `%s` fails for an unrelated reason: %s %s' % (p['desc'], codes, msg), dict(kind='unproved', stage='probes', probe=p['desc'], program=p['src'], codes=codes, message=msg)))
+            else:
+                why = 'rustc rejects `%s` although the payload is %s: the handle is not %s exactly when it should be' % (p['desc'], 'Send and Sync as required', p['trait'])
+                problems.append(('oracle', why, dict(kind='impl-counterexample', stream='probes', probe=p['desc'], program=p['src'], rustc='rejected %s: %s' % (codes, msg), expected='accepted', why=why)))
+        if acc != bool(mwant) and acc == bool(want):
+            problems.append(('correspondence', 'the model of the extracted impls and rustc disagree on `%s`' % p['desc'], dict(kind='correspondence', stream='probes', probe=p['desc'], program=p['src'], rustc=acc, model=bool(mwant))))
+        elif not acc and any(c != 'E0277' for c in codes):
+            problems.append(('probe', 'probe `%s` is rejected, but not by a trait-bound error: %s %s' % (p['desc'], codes, msg), dict(kind='unproved', stage='probes', probe=p['desc'], program=p['src'], codes=codes, message=msg)))
+    probed = set()
+    for p in life:
+        cov['probes'] += 1
+        r = res.get(p['name'])
+        if r is None:
+            problems.append(('missing', 'no rustc verdict for probe %s' % p['desc'], dict(kind='unproved', stage='probes', probe=p['desc']))); continue
+        acc, codes, msg = r
+        cov['accepted' if acc else 'rejected'] += 1
+        nontrivial.add(p['desc'])
+        missing = [n for n in p['needs'] if n not in bv]
+        if missing:
+            problems.append(('model', 'accessor(s) %s used by probe `%s` are not among the extracted signatures' % (missing, p['desc']), dict(kind='unproved', stage='probes', probe=p['desc'], missing=missing)))
+            continue
+        probed.update(p['needs'])
+        if p['kind'] == 'control':
+            cov['controls'] += 1
+            if not acc:
+                problems.append(('probe', 'control probe `%s` does not compile: %s %s' % (p['desc'], codes, msg), dict(kind='unproved', stage='probes', probe=p['desc'], program=p['src'], codes=codes, message=msg)))
+            continue
+        cov['escapes'] += 1
+        model_rejects = all(bv[n] for n in p['needs'])
+        if len(samples) < 5: samples.append(dict(stream='probes', probe=p['desc'], program=src_of(p), rustc='accepted' if acc else 'rejected %s' % codes, model='escape impossible' if model_rejects else 'escape possible'))
+        if acc:
+            why = 'rustc accepts a program in which %s: a borrow escapes the handle or callback it came from' % p['desc']
+            problems.append(('oracle', why, dict(kind='impl-counterexample', stream='probes', probe=p['desc'], program=p['src'], rustc='accepted', expected='rejected by the borrow checker', model='bounded' if model_rejects else 'unbounded', why=why)))
+        else:
+            bad = [c for c in codes if c not in probes_mod.BORROWCK]
+            if bad:
+                problems.append(('probe', 'escape probe `%s` is rejected for an unrelated reason: %s %s' % (p['desc'], codes, msg), dict(kind='unproved', stage='probes', probe=p['desc'], program=p['src'], codes=codes, message=msg)))
+            elif not model_rejects:
+                problems.append(('correspondence', 'the model says `%s` can escape but rustc rejects the probe' % p['desc'], dict(kind='correspondence', stream='probes', probe=p['desc'], program=p['src'], codes=codes)))
+    cov['accessors_probed'] = len(probed)
+    cov['accessors_without_probe'] = sorted(n for n in bv if n not in probed)
+    return dict(coverage=cov, evaluations=cov['probes'], nontrivial=nontrivial, problems=problems[:8], samples=samples)
+
+PROBES_STREAM = dict(stream='probes', custom=custom_probes,
+                     rule='client programs type-checked by rustc (cargo check of one example per probe) against /repo as a dependency with default features: Send and Sync of Arc, OffsetArc, ArcBorrow, UniqueArc at 4 witness payloads (u32, Cell<u32>, MutexGuard<u32>, Rc<u32>), their slices and dyn Any (+Send/+Sync) where the kind admits unsized payloads, Arc<HeaderSlice<H,[T]>>, ThinArc and ArcUnion at all 16 pairs, ArcUnionBorrow, and generically `fn g<T: B>()` for B in {-, Send, Sync, Send+Sync} with and without ?Sized; 47 ways of letting a borrow escape (outlive the handle, stored or returned out of a callback, used across a conflicting use, sent to an unscoped thread, payload borrowing shorter-lived data, drop order) each with a control that differs only by the escape; the expected verdict of every probe is computed in Coq from the extracted impl table and signatures; distinct = distinct probes, all non-trivial')
+
+def c13_side(facts):
+    T = facts.get('traits') or {}
+    heads = sorted(set((a['head'], a['trait']) for a in T.get('auto', [])))
+    want = sorted((h, t) for h in ['Arc', 'ArcBorrow', 'ArcInner', 'ArcUnion', 'OffsetArc', 'ThinArc', 'UniqueArc'] for t in ['Send', 'Sync'])
+    return [('auto_trait_impls_closed_world', heads == want and len(T.get('auto', [])) == 14 and not any(a['neg'] for a in T.get('auto', [])), 'impls: %s' % heads),
+            ('owning_markers_present', bool(T.get('markers')) and all(T['markers'].values()), 'PhantomData markers: %s' % T.get('markers'))]
+
+PROPS['C13'] = dict(streams=[PROBES_STREAM], side_obligations=c13_side,
+                    facts_view=lambda f: dict(auto=[(a['head'], a['trait'], a['params']) for a in (f.get('traits') or {}).get('auto', [])], signatures=len((f.get('traits') or {}).get('sigs', []))),
+                    assumptions=['rustc enforces trait bounds and lifetimes of the declared signatures on every client program (soundness of the Rust type system and borrow checker); the probes sample that enforcement, the theorems are about the declared bounds and signatures',
+                                 'what a second thread can do with each kind of handle (Traits.v, caps) is a hand-written capability table: shared kinds may leave clones behind and destroy or move the payload anywhere; UniqueArc is Box-like',
+                                 'the unstable_dropck_eyepatch feature (nightly only) is off'])
